@@ -4,7 +4,7 @@ from __future__ import annotations
 import copy
 
 from ..mon import Watch, Reach
-from ..ref_sem import Lang, AModel
+from ..ref_sem import Lang, AModel, final_step
 from ..result import Budget, digest, safe
 from ..stream import Built, TooExpensive, cpu_budget, CASE_CPU_S
 from ..gen_lang import gen_language, Cfg
@@ -14,7 +14,7 @@ META = {
     'rule': ('inheritance-heavy random languages (chains up to depth 5; absent / no-reaches / -> / +> redefinitions at '
              'every level, roots with and without a reaches clause) x random histories (length 1-30) of step lookups '
              'in random order with repeats, LanguageGraph() again on the same dict, regenerate_graph(), class factory, '
-             'attack-graph generation and regeneration for random models; every return value of the resolver is '
+             'attack-graph generation and regeneration for random models, bursts of 300-2500 lookups on one graph (languages with sub-types that declare nothing of their own); the children of every language-graph step are compared with the final steps of the folded expressions; every return value of the resolver is '
              'compared with a reference fold computed on a load-time deep snapshot, and the loaded specification is '
              'deep-compared with the snapshot after every step; non-trivial = the language has a step redefined at '
              '>= 1 level and the history has >= 2 steps; distinct = digest(spec, history)'),
@@ -23,14 +23,15 @@ META = {
     'quotas': {
         'quick': {'lookups-compared': 2000, 'redef:extend': 50, 'redef:override': 50, 'redef:none': 20,
                   'chain:reachesless-extended-twice': 5, 'op:lookup': 100, 'op:newgraph': 20, 'op:regen': 20,
-                  'op:attackgraph': 20, 'spec-snapshots-compared': 1000},
+                  'op:attackgraph': 20, 'spec-snapshots-compared': 1000, 'class:over-1000-lookups-on-one-graph': 10,
+                  'class:many-lookups-through-a-type-without-own-steps': 6, 'langgraph-links-compared-with-fold': 10000},
         'thorough': {'lookups-compared': 200000, 'redef:extend': 5000, 'redef:override': 5000, 'redef:none': 2000,
                      'chain:reachesless-extended-twice': 500, 'op:lookup': 10000, 'op:newgraph': 2000,
                      'op:regen': 2000, 'op:attackgraph': 2000, 'spec-snapshots-compared': 100000},
     },
 }
 CASES = {'quick': 900, 'thorough': 60000}
-SECONDS = {'quick': 60, 'thorough': 600}
+SECONDS = {'quick': 300, 'thorough': 600}
 
 
 def classify_language(lang, res):
@@ -89,6 +90,9 @@ def gen_history(rng, lang, n):
             ops.append(['attackgraph', rng.randrange(10 ** 6)])
         else:
             ops.append(['ag-regen'])
+    if rng.random() < 0.12:
+        # the k-th call: hundreds to thousands of lookups on one graph
+        ops.insert(rng.randrange(len(ops) + 1), ['lookup-many', rng.randrange(10 ** 6), rng.choice([300, 700, 1200, 2500])])
     return ops
 
 
@@ -166,6 +170,15 @@ def _check_case(case, res, count=True):
                     if s.type != want[n]['type'] or s.ttc != want[n]['ttc'] or s.attributes != want[n]:
                         diverge('langgraph.asset.attack_steps:wrong-attributes',
                                 'after %s: %s.%s differs: %s' % (step, a.name, n, first_diff(want[n], s.attributes)))
+                    # what the step leads to in the language graph = the final steps of the folded expressions
+                    want_targets = sorted(set(final_step(e) for e in ((want[n]['reaches'] or {}).get('stepExpressions') or [])))
+                    got_targets = sorted(s.children)
+                    if count:
+                        res.count('langgraph-links-compared-with-fold')
+                    if got_targets != want_targets or any(tg.name != k for k, lst in s.children.items() for (tg, _c) in lst):
+                        diverge('langgraph.asset.attack_steps:links-differ-from-fold',
+                                'after %s: %s:%s leads to %s in the language graph, the folded definition leads to %s' % (
+                                    step, a.name, n, [(k, [tg.asset.name + ':' + tg.name for (tg, _c) in lst]) for k, lst in sorted(s.children.items())], want_targets))
 
         graphs = []
         try:
@@ -195,6 +208,14 @@ def _check_case(case, res, count=True):
                         order.reverse()
                     for t in order:
                         g._get_attacks_for_asset_type(t)
+                elif op[0] == 'lookup-many':
+                    rng3 = random.Random(op[1])
+                    for _ in range(op[2]):
+                        g._get_attacks_for_asset_type(rng3.choice(lang.order))
+                    if count:
+                        res.count('class:over-%d-lookups-on-one-graph' % (1000 if op[2] > 1000 else 300))
+                        if any(not lang.assets[t]['attackSteps'] and lang.parent[t] for t in lang.order):
+                            res.count('class:many-lookups-through-a-type-without-own-steps')
                 elif op[0] == 'regen':
                     g.regenerate_graph()
                     check_assets(g, 'regenerate_graph')
